@@ -17,7 +17,8 @@ CLAIMED = {
                 "Decimal ranges (C01_decimal_*, Proofs/DecRange.lean, core Rat): the model's Decimal comparison (Dec.le?) is the order of the rational "
                 "numbers the literals denote, DecimalRange.validate accepts exactly the values inside some item, is defined for every finite value, and the "
                 "overall limits are the minimum / maximum in that order or absent when an item is open; tied to cutplace.ranges.DecimalRange by a "
-                "correspondence stream of rendered decimal descriptions and values (model vs rational spec vs implementation).",
+                "correspondence stream of rendered decimal descriptions and values (model vs rational spec vs implementation). C01_default: a blank "
+                "description stands for the default, any other is used as it is (6 descriptions x 8 defaults against the code).",
         "note": "Trusted: Lean kernel; model faithfulness as sampled by the correspondence (the tokenizer / int() / str methods are CPython behaviour "
                 "transcribed by hand). For DecimalRange the theorems start from the stored items (comparison, membership, limits); the text -> items parse "
                 "has a totality theorem (Props/C10) but no parse = denote theorem, that step is covered by correspondence.",
@@ -173,10 +174,13 @@ CLAIMED = {
                 "thousands separators only before it, one decimal separator). DateTime: C02_datetime_sound (whatever strptime's model accepts for a "
                 "translated layout is a date of the calendar with in-range clock fields, the two-digit year pivoted at 69), C02_datetime_complete (every "
                 "civil date / time rendered in the layout - two-digit fields, any literal text without blanks - is accepted and returned unchanged) and "
-                "C02_datetime_match_exact. Pattern (fnmatch.translate) and RegEx (subset) are modelled and checked by correspondence: per-type rule grammars, member and mutated "
+                "C02_datetime_match_exact; C02_layout_translation: for every layout over the placeholders and literal characters (placeholders side by "
+                "side included) the replacement pass of DateTimeFieldFormat.__init__ and strptime's reading of the result give exactly the directives of "
+                "the layout, and C02_datetime_layout composes the two (rule text in the CID -> every real date written in it is accepted, unchanged); "
+                "proving the translation exposed a genuine defect (MMmm -> %%Mm, repaired by f42b7f8). Pattern (fnmatch.translate) and RegEx (subset) are modelled and checked by correspondence: per-type rule grammars, member and mutated "
                 "cells, all length declarations over 0..3 x all integers of <= 4 characters (quick; 0..5 x <= 6 characters thorough), 4 formats.",
-        "note": "Trusted: Lean kernel; model faithfulness (7.9M cell evaluations in the thorough tier without a disagreement); the layout translation "
-                "(YYYY -> %Y ...) and acceptance theorems for Pattern and RegEx are not proved (correspondence only).",
+        "note": "Trusted: Lean kernel; model faithfulness (7.9M cell evaluations in the thorough tier without a disagreement); acceptance theorems "
+                "for Pattern and RegEx are not proved (correspondence only).",
         "technique": "Lean 4 proof (digits, range membership, length-derived ranges through the range parser, separator translation) + exhaustive/generated differential correspondence",
         "design_ref": "DESIGN.md §6 C02",
     },
